@@ -1,6 +1,6 @@
 (* Properties_C15.v — C15: windowing, padding, wrapping and input-channel options only select or re-lay-out. *)
 From Coq Require Import Floats.SpecFloat.
-From GF Require Import Base Alphabet SymbolsDef FastaModel Float TopK CodonModel Indels VariantsModel Cigar SamModel SamProofs TopaModel WindowProofs.
+From GF Require Import Base Alphabet SymbolsDef FastaModel Float TopK CodonModel Indels VariantsModel Cigar SamModel SamProofs TopaModel TopaProofs WindowProofs.
 Open Scope N_scope.
 
 (* sam toMultiAlign --start s --end e = columns s..e of the untrimmed row (the flank/internal rewrite is done
@@ -40,3 +40,19 @@ Theorem C15_variants_window_filter : forall s e v,
   in_window s e v = true <-> ((0 < s -> s <= v_pos v) /\ (0 < e -> v_pos v <= e))%Z.
 Proof. exact variants_window_filter. Qed.
 Print Assumptions C15_variants_window_filter.
+
+(* sam toPairAlign --start ts --end te: the pair is cut from the column of reference base ts (a: a non-gap column of
+   the reference row with ts-1 reference bases to its left) to the column of base te inclusive, both rows alike; the
+   reference bases inside the cut are exactly bases ts..te; any rows, any insertions *)
+Theorem C15_topa_window_cut : forall ts te R Q R' Q', (ts <= te)%nat -> trim_pair ts te (R, Q) = Some (R', Q') ->
+  (1 <= ts)%nat /\ (te <= length (degap R))%nat /\
+  exists a b, (nth a R 0 =? 45) = false /\ length (degap (firstn a R)) = (ts - 1)%nat /\
+              (nth (b - 1) R 0 =? 45) = false /\ length (degap (firstn (b - 1) R)) = (te - 1)%nat /\ (a < b <= length R)%nat /\
+              R' = firstn (b - a) (skipn a R) /\ Q' = firstn (b - a) (skipn a Q) /\
+              degap R' = firstn (te - ts + 1) (skipn (ts - 1) (degap R)).
+Proof. exact trim_pair_cut. Qed.
+Print Assumptions C15_topa_window_cut.
+
+Example C15_topa_window_example :
+  trim_pair 3 6 (bs "AC--GTA-CGT", bs "ACTTGTAACGT") = Some (bs "GTA-C", bs "GTAAC").
+Proof. vm_compute. reflexivity. Qed.
